@@ -60,6 +60,8 @@ def run(ctx):
                 wbad.append((w, "does not hold a whole number of UTF-8 sequences"))
     # display names
     dn = [None, "Kayo", "Doe, John", "é", "a b", "a  b", 'q"x', "back\\slash", "x" * 100, "very long name " * 8, "😀" * 30, "a\tb", "a\x07", "9", "a.b", "(c)", "<x>", "a@b", "=?utf-8?b?QQ==?=", " lead", "trail ", "é  é", "a" * 70 + " b", "", " "]
+    # a name that repeats the address (people do write `a@b <a@b>`), in any letter case, is a name like any other
+    dn += ["user@example.com", "USER@EXAMPLE.COM", "User@Example.Com", "user@example.com ", "<user@example.com>", "user", "example.com"]
     dn += ["".join(rng.choice(["a", "é", " ", '"', "\\", ",", ".", "(", "😀", "-"]) for _ in range(rng.randint(1, 40))) for _ in range(150 if ctx.tier == "quick" else 3000)]
     ml = [c02.mb_line("To", [(n, "user@example.com")]) for n in dn]
     mi, mm = run_impl(ml), run_model(ml)
@@ -86,12 +88,15 @@ def run(ctx):
             nbad.append((dn[k], "a conforming reader recovers %r" % (got,)))
     # file names
     fn = list(GH.exhaustive(2, ["a", "é", " ", '"', "\\", ";", "'", "%", "😀", "*", "="])) + ["x" * k for k in (1, 40, 41, 42, 43, 60, 200)] + ["é" * k for k in (1, 5, 6, 7, 30)] + ['a"b' * 30, "a b" * 40, "naïve file (1).txt", "a\tb", "tab\there.txt", "trailing ", " lead"]
-    fl = ["hdr.cdisp\t%s\t%s" % (hx(b"attachment"), hx(U(f))) for f in fn]
+    # (both constructors: ContentDisposition::attachment and ::inline_with_name)
+    fkinds = [b"attachment"] * len(fn) + [b"inline"] * len(fn)
+    fn = fn + fn
+    fl = ["hdr.cdisp\t%s\t%s" % (hx(kd), hx(U(f))) for kd, f in zip(fkinds, fn)]
     fi, fm = run_impl(fl), run_model(fl)
     ctx.count(len(fl))
     fdiff = [k for k in range(len(fl)) if fi[k] != fm[k]]
     fd = run_model(["spec.decode_disposition\t" + hx(unhx(o)[len(b"Content-Disposition: "):-2]) if len(o) > 8 else "spec.decode_disposition\t-" for o in fi])
-    fbad = [(fn[k], d) for k, d in enumerate(fd) if d != "some\t%s\t%s" % (hx(b"attachment"), hx(U(fn[k])))]
+    fbad = [(fn[k], d) for k, d in enumerate(fd) if d != "some\t%s\t%s" % (hx(fkinds[k]), hx(U(fn[k])))]
     # whole messages through the public builder: the readers applied to the fields of the real message
     mrecs = MF.run_cases(ctx, MF.cases(ctx.rng, 150 if ctx.tier == "quick" else 3000))
     msgbad = MF.judge_c12(ctx, mrecs)
